@@ -567,7 +567,7 @@ class Interp:
         if isinstance(cls, ExtRef):
             c = canon_ext(cls.name)
             if c in ("jax.Array", "np.ndarray", "jax.typing.ArrayLike", "np.generic"):
-                return isinstance(v, Rat) or (isinstance(v, AbsVal) and getattr(v, "is_array", False))
+                return (isinstance(v, Rat) and getattr(self, "rat_is_array", True)) or (isinstance(v, AbsVal) and getattr(v, "is_array", False))
             if c in ("typing.Sequence", "collections.abc.Sequence", "Sequence"):
                 return isinstance(v, (list, tuple))
             if c in ("numbers.Number",):
@@ -624,7 +624,17 @@ class Interp:
 
     def s_FunctionDef(self, st, env):
         mi = self._module_of(env)
-        env.set(st.name, Closure(st, env, mi, None, f"<local>.{st.name}"))
+        clo = Closure(st, env, mi, None, f"<local>.{st.name}")
+        if st.decorator_list and self.ext_overrides:
+            # decorators of local functions are applied only when a rule supplies a model for them
+            for dec in reversed(st.decorator_list):
+                try:
+                    d = self.eval(dec, env)
+                except AnalysisError:
+                    continue
+                if isinstance(d, ExtRef) and canon_ext(d.name) in self.ext_overrides:
+                    clo = self.call_ext(d.name, [clo], {})
+        env.set(st.name, clo)
 
     def s_ClassDef(self, st, env):
         raise AnalysisError(f"local class {st.name} not supported")
@@ -1424,6 +1434,10 @@ def rat_compare(op, a, b):
     if d.is_const():
         c = d.const_value()
         return {"eq": c == 0, "ne": c != 0, "lt": c < 0, "le": c <= 0, "gt": c > 0, "ge": c >= 0}[op]
+    for _o in COMPARE_ORACLES:  # rule-supplied ordering facts (fn(op, d) -> bool | None, d = a - b)
+        _r = _o(op, d)
+        if _r is not None:
+            return _r
     if op in ("eq", "ne"):
         if d.leading_sign() < 0:
             d = -d
@@ -1443,6 +1457,7 @@ def rat_compare(op, a, b):
 
 
 INTEGER_ATOMS: set = set()
+COMPARE_ORACLES: list = []
 
 
 def _integer_valued(d: Rat) -> bool:
@@ -1807,6 +1822,11 @@ def _round(it, a, k):
     v = a[0]
     if isinstance(v, (int, float, Fraction)):
         return round(v, *a[1:])
+    if isinstance(v, Rat) and len(a) == 1:
+        if v.is_const():
+            return round(v.const_value())
+        if _integer_valued(v):
+            return v  # an integer-valued symbolic expression is its own rounding
     return apply_fn("round", v)
 
 
